@@ -6,6 +6,9 @@ From Coq Require Import List NArith ZArith Bool QArith Qcanon.
 From Okv Require Import Base.Maps Base.Dec Model.Amount Model.Book Model.Query Model.Render
      Model.PriceDb Model.Convert Model.CanonState Run.LedgerCase.
 From Okv Require Model.ImpConfig Model.ImpCsv Run.ImpCase.
+(* layered import configurations travel in case files of their own, classified by
+   Run/Classify_C13L.v (required here so that it is built with this classifier) *)
+From Okv Require Run.Classify_C13L.
 Import ListNotations.
 
 Definition seq := list (cid * Qc).
